@@ -236,13 +236,16 @@ ROUND2 = {
 ROUND3 = {'C01': ' Round 3: substitutions on the very first / last RefSeq base.', 'C02': ' Round 3: evidence objects with an indel re-alignment table (modelled by the reference filter and enumerator), deep near-tie evidence.', 'C03': ' A sub-optimal point returned by the CBC backend as optimal is recorded (KF-CBC) and matched only when a fresh CBC and SCIP disagree on the exported model.', 'C04': ' Round 3: observations below the quality thresholds.', 'C05': ' Round 3: a continuous [0,1] variable in the enumeration models; planted zero-optimum models under a 20-150 ms time limit handed over through the init hook.', 'C06': ' Round 3: directed reads ending exactly on catalogued insertion sites.', 'C07': " Round 3: a self-profile whose neutral region lies on another chromosome at coordinates overlapping the gene's.", 'C09': " Round 3: every allele's configuration vector compared with the regions its entry names; region lookup of first / last / middle base of every region; genes with 10-12 exons; equal-size custom deletions.", 'C10': ' Round 3: fault mode in which only the first structure has no major solution; a pipeline failure caused by recorded finding D9 is attributed by refining the candidates alone.', 'C12': ' Round 3: deletion-insertion variants.', 'C13': ' Round 3: boundary bases of every region compared across builds; edge sites and mirrored read tiling at the alignment layer.', 'C14': " Round 3: a second sample of the same gene (same read names) genotyped between operations, phase records part of the held sample's image; D9 matched only when an enumerator given D9's two ingredients reproduces the score; in-process result compared with a fresh process.", 'C15': " Round 3: a variant pushed below the fraction only when a third allele's qualifying reads are counted.", 'C16': ' Round 3: REF mismatch inside deletions; directed complex records at catalogued indel anchors; a right-shifted indel of a multi-allelic record in a repeat was found this way and repaired in the repository.', 'C17': ' Round 3: multi-gene archives whose gene names contain one another.', 'C19': ' Round 3: mode 10, reads abutting an empty neutral region on both sides.'}
 
 
+ROUND4 = {'C06': ' Round 4: alignments spanning the whole gene region / starting on its first base / ending on its last.', 'C10': ' Round 4: mode in which the second-best refined candidate is moved into the documented tolerance window of the final filter.', 'C12': ' Round 4: copies carrying an insertion and another variant at one position.', 'C16': ' Round 4: indel records in the left-aligned form callers write (led to a repository fix), generated genes on chromosome X.'}
+
+
 def main():
     checks = []
     for pid in ALL:
         if pid not in CHECKS:
             continue
         tech, text, note, ref = CHECKS[pid]
-        text += ROUND2.get(pid, "") + ROUND3.get(pid, "")
+        text += ROUND2.get(pid, "") + ROUND3.get(pid, "") + ROUND4.get(pid, "")
         checks.append({
             "property_id": pid,
             "quick_cmd": f"./check {pid} --tier quick",
